@@ -629,8 +629,12 @@ class Tensor:
     def argmin(self, dim=None, keepdim=False):
         return self.neg().argmax(dim, keepdim)
 
-    def nonzero(self):
+    def nonzero(self, as_tuple=False):
         """data-dependent shape: every element is concretised (forks per feasible pattern)"""
+        if as_tuple:
+            t = self.nonzero()
+            n = t.shape[0]
+            return tuple(Tensor((n,), [t.els[r * len(self.shape) + d] for r in range(n)]) for d in range(len(self.shape)))
         idxs = []
         for idx, d in zip(itertools.product(*[range(s) for s in self.shape]), self.els):
             if truth(s_cmp('!=', to_num(d), 0) if is_sym(d) else d != 0):
